@@ -154,12 +154,12 @@ def Result.toSeq (r : Result) : Model.Seq.Result :=
 
 /-! ### the hypothesis of the transparency theorems, as a decidable predicate of the cache-less run -/
 
-/-- the addresses of one load lie in memory and in ONE line of `L` bytes -/
+/-- the addresses of one load lie in memory and in ONE line of `L` bytes (same `addr - addr % L`) -/
 def loadOk (L : Int) (memLen : Nat) (addrs : List Word) : Bool :=
   match addrs with
   | [] => true
   | a0 :: _ => addrs.all fun a =>
-      decide (0 ≤ a.toInt) && decide (a.toInt < memLen) && decide (Int.tdiv a.toInt L = Int.tdiv a0.toInt L)
+      decide (0 ≤ a.toInt) && decide (a.toInt < memLen) && decide (a.toInt - Int.tmod a.toInt L = a0.toInt - Int.tmod a0.toInt L)
 
 /-- the changes of one store: non-empty, consecutive ascending addresses from the first one, in memory
 and in ONE line -/
